@@ -189,6 +189,10 @@ def main():
     # into a real GFContainer (map, element identities, statuses) and every evaluated element is compared bit for bit with a GreensFunction
     # constructed directly for that pair; simulated longer histories likewise (Container2Trace.tla)
     gfcontainer_histories(c, thorough)
+    # the container every part accumulates its Lehmann terms in (spec/TermList.tla): like terms are merged, nothing is lost except by the
+    # negligibility rule -- every add_term history of a catalogue with chains of nearly equal poles, replayed on the real template
+    import termlist
+    termlist.run(c, ["GF"], thorough)
     # call histories of the documented workflow (spec/Workflow.tla): repeated prepare()/compute() are no-ops, a call changes the data of
     # its own object only, and whatever the history, the finished object holds the data of the canonical linear order
     import workflow
